@@ -139,8 +139,9 @@ func boundaryKey(v ssa.Value) string {
 
 func r06_3(c *Ctx, r *Report) {
 	const rule = "R06.3"
-	r.rule(rule, "Published year tables are immutable. Nothing outside LunarYear.compute (reached from NewLunarYear only) mutates LunarYear.months, LunarYear.jieQiJulianDays or a field of a LunarMonth: the tables are shared through the one-slot cache.")
+	r.rule(rule, "Published year tables are immutable. LunarYear.months, LunarYear.jieQiJulianDays and the fields of LunarYear and LunarMonth are written only to objects the writing activation has allocated itself, or through a parameter of an unexported builder that every caller hands a freshly allocated object (LunarYear.compute): the tables are shared through the one-slot cache.")
 	writers := map[string]map[string]bool{}
+	notBuilding := map[string]bool{}
 	for _, fn := range c.Funcs {
 		if isInit(fn) {
 			continue
@@ -158,16 +159,26 @@ func r06_3(c *Ctx, r *Report) {
 					writers[k] = map[string]bool{}
 				}
 				writers[k][fname(fn)] = true
+				// a write to an object this activation allocated, or through a builder parameter
+				// (an object every caller has just allocated), is part of building the table
+				building := l.Root == "a"
+				if strings.HasPrefix(l.Root, "p") {
+					idx := -1
+					fmt.Sscanf(l.Root, "p%d", &idx)
+					building = c.builderParam(fn, idx, map[string]bool{})
+				}
+				if !building {
+					notBuilding[fname(fn)] = true
+				}
 			}
 		}
 	}
-	allowed := map[string]bool{"calendar.NewLunarYear": true, "calendar.(*LunarYear).compute": true, "calendar.NewLunarMonth": true}
 	n := 0
 	for k, ws := range writers {
 		n++
 		var bad []string
 		for w := range ws {
-			if !allowed[w] {
+			if notBuilding[w] {
 				bad = append(bad, w)
 			}
 		}
